@@ -89,6 +89,7 @@ type Outcome struct {
 	Elapsed  time.Duration
 	GorBefore, GorAfter int
 	FdBefore, FdAfter   int
+	FdList              string
 	SackAccepts int
 }
 
@@ -147,6 +148,20 @@ func countFds() int {
 	return len(d)
 }
 
+// listFds describes the open descriptors (for the message of a leak report).
+func listFds() string {
+	d, err := os.ReadDir("/proc/self/fd")
+	if err != nil {
+		return err.Error()
+	}
+	var sb strings.Builder
+	for _, e := range d {
+		l, _ := os.Readlink("/proc/self/fd/" + e.Name())
+		fmt.Fprintf(&sb, "%s=%s ", e.Name(), l)
+	}
+	return sb.String()
+}
+
 // RunScenario executes one scenario on the fake clock and returns everything observable.
 func RunScenario(t *testing.T, sc *Scenario) *Outcome {
 	out := &Outcome{}
@@ -199,7 +214,7 @@ func RunScenario(t *testing.T, sc *Scenario) *Outcome {
 					}
 				}()
 			}
-			out.GorBefore = runtime.NumGoroutine()
+			out.GorBefore = bubbleGoroutines()
 			begin := time.Now()
 			out.Start = w.since()
 			func() {
@@ -216,7 +231,7 @@ func RunScenario(t *testing.T, sc *Scenario) *Outcome {
 			w.mu.Unlock()
 			cancel()
 			synctest.Wait()
-			out.GorAfter = runtime.NumGoroutine()
+			out.GorAfter = bubbleGoroutines()
 		})
 	}()
 	if world.Sack != nil {
@@ -224,6 +239,9 @@ func RunScenario(t *testing.T, sc *Scenario) *Outcome {
 		world.Sack.Close()
 	}
 	out.FdAfter = countFds()
+	if out.FdAfter > out.FdBefore {
+		out.FdList = listFds()
+	}
 	return out
 }
 
@@ -248,4 +266,20 @@ func scenarioBoundNoLag(sc *Scenario) time.Duration {
 		return 500*time.Millisecond + sc.Timeout() + n*sc.Delay() + sc.Poll()
 	}
 	return sc.Timeout() + n*sc.Delay() + sc.Poll()
+}
+
+// bubbleGoroutines counts the goroutines that live in a synctest bubble (the runtime tags them in their
+// stack header). runtime.NumGoroutine also counts the runtime's own background goroutines, which come
+// and go on a busy machine and made the leak check flaky.
+func bubbleGoroutines() int {
+	buf := make([]byte, 1<<20)
+	for {
+		n := runtime.Stack(buf, true)
+		if n < len(buf) {
+			buf = buf[:n]
+			break
+		}
+		buf = make([]byte, 2*len(buf))
+	}
+	return strings.Count(string(buf), ", synctest bubble ")
 }
